@@ -52,3 +52,5 @@ package chunking
 //@   ensures [out-of-order-rejected] cseq != seq0 + 1 ==> result1 != nil
 //@   ensures [accepted] result1 == nil ==> ((sid0 == "" || sid0 == csid) && cseq == seq0 + 1 && result0 == clast)
 //@   assert @io.Copy: [in-order-only] (sid0 == "" || sid0 == csid) && cseq == seq0 + 1
+//@   ensures [accepted-advances] result1 == nil ==> (d.seqNum == seq0 + 1 && d.streamID == csid)
+//@   ensures [rejected-keeps-position] ((sid0 != "" && sid0 != csid) || cseq != seq0 + 1) ==> (d.seqNum == seq0 && (sid0 != "" ==> d.streamID == sid0))
